@@ -292,6 +292,45 @@ func c07Units(tier string) []*Unit {
 			}})
 		}
 	}
+	// a task that stops at its prompt (declined, or no terminal) under a concurrency limit: the
+	// invocation ends (205), it does not wait for a slot of its own
+	for _, v := range []struct {
+		name string
+		opts vlab.Options
+		pos  string
+	}{
+		{"declined", vlab.Options{AssumeTerm: true, Stdin: "n\n", Concurrency: 1}, "direct"},
+		{"no-terminal", vlab.Options{Concurrency: 1}, "direct"},
+		{"declined", vlab.Options{AssumeTerm: true, Stdin: "n\n", Concurrency: 1}, "dep"},
+		{"declined", vlab.Options{AssumeTerm: true, Stdin: "n\n", Concurrency: 2}, "call"},
+	} {
+		v := v
+		g := &T{Name: "g", Prompt: []string{"sure?"}, Cmds: []C{P()}}
+		pg := &Prog{Tasks: []*T{g}}
+		root := "g"
+		switch v.pos {
+		case "dep":
+			pg = &Prog{Tasks: []*T{{Name: "root", Deps: []Ref{D("g"), D("o")}, Cmds: []C{P()}}, g, {Name: "o", Cmds: []C{P()}}}}
+			root = "root"
+		case "call":
+			pg = &Prog{Tasks: []*T{{Name: "root", Deps: []Ref{D("o")}, Cmds: []C{Call("g"), P()}}, g, {Name: "o", Cmds: []C{P()}}}}
+			root = "root"
+		}
+		sc := scen(fmt.Sprintf("prompt-%s-under-concurrency-limit/%s/N%d", v.name, v.pos, v.opts.Concurrency), pg, v.opts, root)
+		us = append(us, &Unit{Name: sc.Name, Sc: sc, Bound: 1, Prune: true, Weight: 1, Check: func(x *vlab.Exec) []vlab.Violation {
+			out := generic("C07", x)
+			if x.Res.Deadlock {
+				return append(out, vlab.V("C07", "deadlock", "prompt_"+v.name, fmt.Sprintf("no thread enabled while some are unfinished: %v", x.Res.Blocked)))
+			}
+			if x.Res.Horizon {
+				return append(out, vlab.V("C07", "no_termination_within_horizon", "prompt_"+v.name, "execution exceeded the step horizon"))
+			}
+			if x.Code != 205 && x.Code != 201 {
+				out = append(out, vlab.V("C07", "prompt_status", fmt.Sprintf("got%d", x.Code), fmt.Sprintf("a task stopped at its prompt but the invocation ended with status %d (%s)", x.Code, firstN(x.ErrStr, 100))))
+			}
+			return out
+		}})
+	}
 	var cn []string
 	for k := range cyc {
 		cn = append(cn, k)
